@@ -261,6 +261,16 @@ pub fn modes_zero() -> Vec<GenCfg> {
     c.zero_pct = 80;
     c.op_w = [30, 50, 2, 10, 2, 2, 1, 0, 3];
     v.push(c);
+    // many orders with nothing displayed but something hidden resting at the same time
+    let mut c2 = GenCfg::base("many-undisplayed-with-hidden");
+    c2.kind_w = [1, 6, 0, 0, 0, 0, 4];
+    c2.zero_pct = 75;
+    c2.hid_zero_pct = Some(8);
+    c2.max_resting = 12;
+    c2.preload = (4, 9);
+    c2.len = (6, 40);
+    c2.op_w = [34, 44, 2, 14, 2, 2, 1, 0, 1];
+    v.push(c2);
     let mut d = GenCfg::base("mixed");
     d.zero_pct = 15;
     v.push(d);
@@ -419,6 +429,16 @@ pub fn modes_priority() -> Vec<GenCfg> {
     h2.op_w = [40, 9, 38, 0, 0, 0, 5, 0, 0];
     h2.final_drain = true;
     v.push(h2);
+    // orders with nothing displayed are visited, set aside, and later amended back up
+    let mut z = GenCfg::base("undisplayed-then-amended-up");
+    z.kind_w = [2, 7, 1, 0, 0, 0, 2];
+    z.zero_pct = 35;
+    z.hid_zero_pct = Some(10);
+    z.max_resting = 6;
+    z.len = (10, 50);
+    z.op_w = [24, 36, 3, 30, 3, 3, 1, 0, 0];
+    z.final_drain = true;
+    v.push(z);
     let mut g = GenCfg::base("clean-exact-layered");
     g.exact_fills = true;
     g.reuse_ids = false;
